@@ -331,6 +331,46 @@ def econd_summary(ev, bound, rec):
   return r_
 
 
+def axes_all_but(ev, cmpr, ax, nd):
+  """If `ax` denotes the axis list [0 .. nd-1] with exactly one axis i left out, return the term i, else None.
+  Recognised spellings: range(i) + range(i+1, nd);  [a for a in range(nd) if a != i];  list(range(nd)) with i removed."""
+  from .spec import spec_term
+
+  def is_range_nd(it):
+    while it.op == 'call' and it.args[0].op == 'builtin' and it.args[0].args[0] in ('list', 'tuple', 'iter') and len(it.args[1]) == 1:
+      it = it.args[1][0]
+    return it.op == 'call' and it.args[0].op == 'builtin' and it.args[0].args[0] == 'range' and len(it.args[1]) == 1 and cmpr.same(it.args[1][0], nd)
+  a = ax
+  while a.op == 'call' and a.args[0].op == 'builtin' and a.args[0].args[0] in ('list', 'tuple', 'sorted') and len(a.args[1]) == 1 and \
+      a.args[1][0].op in ('list', 'tuple', 'mut', 'bin'):
+    a = a.args[1][0]
+  # C: list(range(nd)).remove(i)
+  if a.op == 'mut' and a.args[1] == 'remove' and len(a.args[2]) == 1 and is_range_nd(a.args[0]):
+    return a.args[2][0]
+  # B: [v for v in range(nd) if v != i]
+  if a.op in ('list', 'tuple') and len(a.args) == 1 and a.args[0].op == 'star':
+    v, dom = a.args[0].args
+    if dom.op == 'compdom' and len(dom.args) == 2 and is_range_nd(dom.args[0]) and v.op == 'rangevar':
+      c, neg = dom.args[1], False
+      if c.op == 'un' and c.args[0] == 'not':
+        c, neg = c.args[1], True
+      if c.op == 'cmp' and len(c.args) == 3 and (c.args[1] is v) != (c.args[2] is v):
+        other = c.args[2] if c.args[1] is v else c.args[1]
+        if (c.args[0] == '!=' and not neg) or (c.args[0] == '==' and neg):
+          return other
+    return None
+  # A: range(i) + range(i + 1, nd): find the candidate i as the bound of the first range
+  if a.op == 'bin' and a.args[0] == '+':
+    first = a.args[1]
+    while first.op == 'call' and first.args[0].op == 'builtin' and first.args[0].args[0] in ('list', 'tuple') and len(first.args[1]) == 1:
+      first = first.args[1][0]
+    if first.op == 'call' and first.args[0].op == 'builtin' and first.args[0].args[0] == 'range' and len(first.args[1]) == 1:
+      i = first.args[1][0]
+      if cmpr.same(ax, spec_term(ev, 'list(range(i)) + list(range(i + 1, n))', {'i': i, 'n': nd})):
+        return i
+  return None
+
+
 def check_efficient_cond(ctx, rule):
   """efficient_cond's body implements cond(predicate, compute_fn(), init_state).
 
